@@ -85,6 +85,9 @@ _GENERIC_DEFAULT = ("E", "GenericFontFamilyType", "default")
 _GENERIC_MONOSERIF = ("E", "GenericFontFamilyType", "monospaceSerif")
 
 
+_NO_SHADOW = ("S", "none")        # mc.spec.enc_val(SpecialValues.none)
+
+
 def approx_same(a, b, rel=1e-5):
   if isinstance(a, tuple) and isinstance(b, tuple):
     # IMSC 1.1: the generic family 'default' is monospaceSerif; the reader maps it on purpose
@@ -92,6 +95,11 @@ def approx_same(a, b, rel=1e-5):
       a = _GENERIC_MONOSERIF
     if b == _GENERIC_DEFAULT:
       b = _GENERIC_MONOSERIF
+    # a list of no text shadows is no shadow: TTML writes both as "none"
+    if a == ("ts", ()):
+      a = _NO_SHADOW
+    if b == ("ts", ()):
+      b = _NO_SHADOW
     return len(a) == len(b) and all(approx_same(x, y, rel) for x, y in zip(a, b))
   if isinstance(a, bool) or isinstance(b, bool) or a is None or b is None or isinstance(a, str) or isinstance(b, str):
     return a == b
@@ -460,6 +468,7 @@ ODD_VALUES = [
   ("region", "Extent", ["ext", L(1234567, "px"), L(2000000, "px")]),
   ("p", "Shear", 0.00001), ("p", "Shear", -0.00002), ("p", "FontFamily", ["ff", [""]]), ("p", "FontFamily", ["ff", ["a", ""]]),
   ("init", "TextDecoration", ["td", None, None, None]), ("init", "Shear", 0.00001),
+  ("span", "TextShadow", ["ts", []]), ("init", "TextShadow", ["ts", []]),      # a list of no shadows
 ]
 
 
@@ -553,6 +562,25 @@ def fam_times(tier):
   return Family("F-times", len(items), dec, check_rt, timeout=30, note="time values on/between units x every configuration (syntax x fps)")
 
 
+def fam_anim_order():
+  """two animation steps on one element in every order of their begin times: where both are active the later one in the
+  element's list wins, so the written <set> elements must keep the order of the list"""
+  iv = [(None, None), (F(1), F(3)), (F(2), F(4)), (F(2), None), (None, F(3)), (F(3), F(4))]
+  prod = Product([iv, iv, ["p", "span", "region"], [0, 1], CONFIGS_SMALL[:2]])
+
+  def dec(i):
+    (b1, e1), (b2, e2), lv, same, c = prod.decode(i)
+    spec = docgen.chain_doc({"p": (None, F(5))}, True)
+    pnode = spec["body"]["c"][0]["c"][0]
+    tgt = {"region": spec["regions"][0], "p": pnode, "span": pnode["c"][0]}[lv]
+    p1, v1, v2 = ("BackgroundColor", stylegen.RED, ["C", 0, 0, 255, 255]) if lv == "region" else ("Color", stylegen.RED, ["C", 0, 0, 255, 255])
+    second = [p1, b2, e2, v2] if same else ["Opacity" if lv == "region" else "FontStyle", b2, e2, 0.5 if lv == "region" else E("FontStyleType", "italic")]
+    tgt["an"] = [[p1, b1, e1, v1], second]
+    return {"spec": spec, "config": c, "key": f"anim-order#{i}"}
+  return Family("F-anim-order", prod.n, dec, check_rt, timeout=30,
+                note="two animation steps on p / span / region: begin and end of each present or absent, earlier or later than the other's, same or different property")
+
+
 def fam_params():
   cells = [None, [15, 32], [19, 40], [1, 1]]
   pxs = [None, [640, 480]]
@@ -606,4 +634,4 @@ def fam_params():
 
 def plan(tier, seed):
   # thorough: the style grid under every writer configuration (every syntax x every frame rate)
-  return [fam_styles(CONFIGS_ALL if tier == "thorough" else None), fam_kinds(), fam_times(tier), fam_params(), fam_odd_values()]
+  return [fam_styles(CONFIGS_ALL if tier == "thorough" else None), fam_kinds(), fam_times(tier), fam_params(), fam_odd_values(), fam_anim_order()]
